@@ -188,6 +188,20 @@ def draw_faults(r, kind, data, readmap):
             ch = r.choice([0x27, 0x22, 0x5C, 0x7F, 0x00, 0x0A, 0x3C, 0x26, 0xFF, 0x25, 0x7B])
             faults.append(["set", pos, "%02x" % ch])
             kinds.append("special-char-in-blob")
+        elif c < 0.88 and blobs:
+            # a broken multi-byte sequence in a bulk-read region (MUTF-8 / UTF-8 / UTF-16 string data): lead bytes without
+            # their continuation, lone continuation bytes, surrogate halves -- mostly right in front of a terminator, where a
+            # sequence that was cut off would end
+            lo, hi = r.choice(blobs)
+            seq = bytes.fromhex(r.choice(["e0c0", "efef", "e0", "c0", "80", "eda080", "edb080", "f09f", "e080", "c080c0", "e0e0e0",
+                                          "ff", "e1c1", "00d8", "00dc00dc", "d800", "c1bf"]))
+            zeros = [i for i in range(lo + len(seq), hi) if data[i] == 0]
+            if zeros and r.random() < 0.65:
+                pos = r.choice(zeros[:2048]) - len(seq)
+            else:
+                pos = r.randrange(lo, max(lo + 1, hi - len(seq)))
+            faults.append(["set", pos, seq.hex()])
+            kinds.append("broken-multibyte-in-blob")
         else:
             padlen = r.choice([1, 2, 3, 8, 16, 64, 300])
             junk = bytes(r.randrange(1, 256) for _ in range(padlen))
@@ -300,8 +314,14 @@ def _source_bytes(src):
         out = io.BytesIO()
         with zipfile.ZipFile(out, "w", zipfile.ZIP_DEFLATED) as z:
             z.writestr("AndroidManifest.xml", axmlasm.assemble(src["doc"]))
+            if src.get("table"):
+                from gen import arscasm
+                z.writestr("resources.arsc", arscasm.assemble(src["table"]))
             z.writestr("classes.dex", b"")
         return out.getvalue()
+    if src["kind"] == "gen-arsc":
+        from gen import arscasm
+        return arscasm.assemble(src["table"])
     if src["kind"] == "gen-axml":
         from gen import axmlasm
         return axmlasm.assemble(src["doc"])
@@ -349,6 +369,23 @@ def _worker_inproc(seed):
         doc = axmlasm.manifest_doc(r)
         kind, name = "apk", "generated"
         src = {"kind": "gen-apk", "parser": "apk", "name": "generated", "doc": doc}
+        data = _source_bytes(src)
+    elif pick < 0.48:
+        # two cooperating generated files in one archive: a resource table whose strings name other string resources (chains,
+        # cycles, missing targets) and a manifest whose <permission> attributes name them in plain text
+        from gen import arscasm, axmlasm
+        table = arscasm.random_table(r)
+        names = [e["key"] for t in table["types"] if t["name"] == "string" for e in t["entries"] if e]
+        doc = axmlasm.manifest_doc(r, string_names=names)
+        kind, name = "apk", "generated"
+        src = {"kind": "gen-apk", "parser": "apk", "name": "generated", "doc": doc, "table": table}
+        data = _source_bytes(src)
+    elif pick < 0.52:
+        # a generated resource table on its own (storage faults on top)
+        from gen import arscasm
+        table = arscasm.random_table(r)
+        kind, name = "arsc", "generated"
+        src = {"kind": "gen-arsc", "parser": "arsc", "name": "generated", "table": table}
         data = _source_bytes(src)
     else:
         kind, name, data = r.choice(files)
